@@ -35,6 +35,8 @@ type hostileScn struct {
 	Cut    int      `json:"cut"`   // cut: truncate our stream at this offset
 	Only   bool     `json:"only"`  // argline: Args are the ONLY argument lines (nothing of the valid request)
 	Frame  int      `json:"frame"` // bigframe (client): one data frame of this many bytes, all delivered
+	Field2 string   `json:"field2"` // pair mutation: a second field of the same header damaged as well
+	Class2 string   `json:"class2"`
 }
 
 type hostileObs struct {
@@ -71,6 +73,21 @@ func f64(name string, v int64) fld { return fld{name: name, kind: "i64", i: v} }
 
 // serialise builds the byte stream, damaging the FIRST field called target.
 // Returns the bytes, whether the target was found, and the cut offset (-1: none).
+// preDamage applies the companion mutation of a pair (Field2/Class2) to the first field of that name.
+func preDamage(fs []fld, target, class string, rnd *rand.Rand) []fld {
+	if target == "" {
+		return fs
+	}
+	out := append([]fld(nil), fs...)
+	for i, f := range out {
+		if f.name == target {
+			out[i] = damage(f, class, rnd)
+			break
+		}
+	}
+	return out
+}
+
 func serialise(fs []fld, target, class string, rnd *rand.Rand) ([]byte, bool, int) {
 	var out bytes.Buffer
 	hit := false
@@ -290,13 +307,13 @@ func hostileHandler(w *workerCtx, line []byte) (any, error) {
 		var hit bool
 		if s.Victim == "daemon-sender" {
 			fs := daemonSenderScript(fdata, s.Args, s.Only)
-			script, hit, _ = serialise(fs, s.Field, s.Class, rnd)
+			script, hit, _ = serialise(preDamage(fs, s.Field2, s.Class2, rnd), s.Field, s.Class, rnd)
 			script = applyNoise(script, &s, rnd)
 			a.Write(script)
 		} else {
 			// two stages: the trailer of the uploaded file needs the daemon's seed
 			head := daemonReceiverHead(s.Args)
-			hb, hit1, cut := serialise(head, s.Field, s.Class, rnd)
+			hb, hit1, cut := serialise(preDamage(head, s.Field2, s.Class2, rnd), s.Field, s.Class, rnd)
 			a.Write(hb)
 			hit = hit1
 			script = hb
@@ -304,6 +321,7 @@ func hostileHandler(w *workerCtx, line []byte) (any, error) {
 				seed, ok := readDaemonSeed(a)
 				if ok {
 					body := daemonReceiverBody(seed)
+					body = preDamage(body, s.Field2, s.Class2, rnd)
 					bb, hit2, _ := serialise(body, s.Field, s.Class, rnd)
 					if hit1 {
 						bb, _, _ = serialise(body, "", "", rnd)
@@ -352,7 +370,7 @@ func hostileHandler(w *workerCtx, line []byte) (any, error) {
 			fs = []fld{fI("version", 27), fI("seed", 4711), fY("h0", byte(s.Frame)), fY("h1", byte(s.Frame>>8)), fY("h2", byte(s.Frame>>16)), fY("h3", 7),
 				fB("payload", bytes.Repeat([]byte{0x40, 1, 0, 0, 0, 'x', 0, 0, 0, 0, 0, 0, 0, 0, 0xa4, 0x81, 0, 0}, s.Frame/18+1)[:s.Frame])}
 		}
-		script, hit, _ := serialise(fs, s.Field, s.Class, rnd)
+		script, hit, _ := serialise(preDamage(fs, s.Field2, s.Class2, rnd), s.Field, s.Class, rnd)
 		script = applyNoise(script, &s, rnd)
 		obs.Hit, obs.Len = hit || s.Kind != "", len(script)
 		b.Write(script)
